@@ -22,6 +22,12 @@ static const lzma_allocator *AL() { if (!g_alp) { g_alp = new va::Alloc(); g_alp
 extern "C" size_t vfresh_max(void) { return 240; }
 
 // ---------------------------------------------------------------- symbol generation
+// Byte values that the BCJ filters look for (x86 E8/E9 + 00/FF high bytes, ARM EB, Thumb F0-F7/F8, PowerPC 48..01, SPARC 40/7F,
+// ARM64 94/97/90, RISC-V EF/97/E7/17, IA-64 template bits): when the Block has a BCJ filter the synthesised LZMA2 payload is drawn
+// from these, so that the filters really convert (and keep state across call boundaries) instead of passing text through
+static bool g_bcj_alphabet = false;
+static const uint8_t bcj_bytes[24] = {0xE8, 0xE9, 0x00, 0xFF, 0xEB, 0xF0, 0xF7, 0xF8, 0x48, 0x01, 0x40, 0x7F, 0x94, 0x97, 0x90, 0xEF, 0xE7, 0x17, 0x10, 0x03, 0x0F, 0x80, 0x11, 0x16};
+static inline uint8_t plain_byte(unsigned k) { return g_bcj_alphabet ? bcj_bytes[k % 24] : (uint8_t)"ab\n \0xyz"[k & 7]; }
 struct SymGen {
 	Case &c; ref::LzmaSyn &z; std::vector<uint8_t> &win; uint32_t dict;
 	std::map<std::string, unsigned> feat;
@@ -33,7 +39,7 @@ struct SymGen {
 		if (k < 110 || lim == 0) { ref::Sym y; y.kind = ref::Sym::LIT; uint8_t lb = c.byte();
 			// after a match the "matched literal" coding is used: make the literal equal / differ in the first bit / in a later bit
 			if (z.s.state >= 7 && lb < 90) { unsigned mb = win[win.size() - z.s.rep0 - 1]; y.a = lb < 30 ? mb : (lb < 60 ? mb ^ 0x80 : mb ^ (1u << (lb & 7))); ++feat["matched_literal"]; }
-			else y.a = lb < 200 ? "ab\n \0xyz"[lb & 7] : c.byte();
+			else y.a = lb < 200 ? plain_byte(g_bcj_alphabet ? c.byte() : lb) : c.byte();
 			z.put(y, win); ++feat["lit"]; return; }
 		if (k < 170) { ref::Sym y; y.kind = ref::Sym::MATCH; uint8_t db = c.byte();
 			uint32_t d = db < 50 ? 0 : (db < 90 ? lim - 1 : (db < 120 ? (lim > 1 ? lim - 2 : 0) : (db < 150 ? c.u(std::min<uint32_t>(lim, 16)) : c.u32() % lim)));
@@ -77,7 +83,7 @@ static L2 syn_lzma2(Case &c, const uint8_t *preset, size_t preset_len, bool allo
 			uint32_t n = c.rare(30) ? 65536 : 1 + (c.rare(60) ? c.u16() : c.u(300)); if (n > 65536) n = 65536;
 			R.bytes.push_back(dict_reset ? 0x01 : 0x02); R.bytes.push_back((uint8_t)((n - 1) >> 8)); R.bytes.push_back((uint8_t)(n - 1));
 			if (dict_reset) { flush(); win.clear(); emitted = 0; have_props = false; ++R.feat["dict_reset_by_uncompressed"]; }
-			Rng g(c.u32()); for (uint32_t i = 0; i < n; ++i) { uint8_t b = (uint8_t)(g.next() % 7 ? "abc \n01"[g.below(7)] : g.byte()); R.bytes.push_back(b); win.push_back(b); }
+			Rng g(c.u32()); for (uint32_t i = 0; i < n; ++i) { uint8_t b = (uint8_t)(g.next() % 7 ? (g_bcj_alphabet ? bcj_bytes[g.below(24)] : "abc \n01"[g.below(7)]) : g.byte()); R.bytes.push_back(b); win.push_back(b); }
 			++R.feat["uncompressed_chunk"]; if (n == 65536) ++R.feat["uncompressed_chunk_64k"];
 		} else {
 			unsigned mode = dict_reset ? 3 : (!have_props ? 2 : c.u(4)); if (mode == 3 && !dict_reset) { dict_reset = true; }
@@ -88,6 +94,12 @@ static L2 syn_lzma2(Case &c, const uint8_t *preset, size_t preset_len, bool allo
 			size_t before = win.size(); SymGen G{c, z, win, ref::effective_dict(dict)};
 			unsigned nsym = 1 + (c.rare(40) ? c.u16() % 3000 : c.u(60));
 			for (unsigned i = 0; i < nsym && win.size() - before < (1u << 21) - 300 && z.rc.out.size() < 60000; ++i) G.step();
+			if (c.rare(3) && !win.empty()) {
+				// a chunk whose uncompressed size needs bit 20 of the 21-bit size field (> 1 MiB; the limit is 2 MiB): long matches
+				ref::Sym y; y.kind = ref::Sym::MATCH; y.a = c.u(std::min<uint32_t>(G.valid_limit(), 300)); y.b = 273; unsigned k = 3850 + c.u(3800);
+				for (unsigned i = 0; i < k && win.size() - before < (1u << 21) - 300 && z.rc.out.size() < 60000; ++i) z.put(y, win);
+				if (win.size() - before > (1u << 20)) ++G.feat["chunk_over_1MiB_uncompressed"];
+			}
 			for (auto &kv : G.feat) R.feat[kv.first] += kv.second;
 			std::vector<uint8_t> comp = z.finish(); uint32_t unc = (uint32_t)(win.size() - before);
 			if (unc == 0 || comp.size() > 65536) harness_bug("synthesised chunk out of range");
@@ -125,7 +137,9 @@ static void syn_stream(Case &c, SynFile &F) {
 		for (unsigned i = 0; i < nonlast; ++i) { ref::Filter f; if (c.u(3) == 0) { f.id = ref::FID_DELTA; f.props.push_back((uint8_t)(c.rare(80) ? c.byte() : c.u(4))); ++F.feat["filter_delta"]; }
 			else { f.id = ref::FID_X86 + c.u(8); unsigned al = ref::bcj_alignment(f.id); if (c.flag()) { uint32_t so = (c.rare(60) ? c.u32() : c.u(64)) / al * al; f.props.resize(4); for (int k = 0; k < 4; ++k) f.props[k] = (uint8_t)(so >> (8 * k)); } F.has_bcj = true; ++F.feat["filter_bcj"]; }
 			fs.push_back(f); }
-		L2 L = syn_lzma2(c, nullptr, 0, true);
+		bool block_bcj = false; for (auto &f : fs) if (f.id != ref::FID_DELTA) block_bcj = true;
+		g_bcj_alphabet = block_bcj && c.chance(200); if (g_bcj_alphabet) ++F.feat["bcj_block_with_opcode_rich_payload"];
+		L2 L = syn_lzma2(c, nullptr, 0, true); g_bcj_alphabet = false;
 		for (auto &kv : L.feat) F.feat[kv.first] += kv.second;
 		{ ref::Filter f; f.id = ref::FID_LZMA2; f.props.push_back(L.dict_byte); fs.push_back(f); }
 		if (fs.size() == 4) ++F.feat["four_filters"];
